@@ -2278,3 +2278,39 @@ M('C11','orderedmap-head-reads-tail-key','ds/orderedmap/orderedmap.go',"""	key =
 ""","""	key = o.tail.key
 """,'accessor/end-consistent')
 M('C10','movetoback-guard-looks-at-the-front','ds/list_impl.go',"""	if typedElement.list.Load() != l || l.root.prev.Load() == element {""","""	if typedElement.list.Load() != l || l.root.next.Load() == element {""",'accessor/end-consistent')
+M('C13','set-apply-notification-stops-at-unlockable-subscriber','ds/reactive/set_impl.go',"""	appliedMutations, updateID, registeredCallbacks := s.apply(mutations)
+	if appliedMutations.IsEmpty() {
+		return appliedMutations
+	}
+
+	for _, registeredCallback := range registeredCallbacks {
+		if registeredCallback.LockExecution(updateID) {
+			registeredCallback.Invoke(appliedMutations)
+			registeredCallback.UnlockExecution()
+		}
+	}
+
+	return appliedMutations
+}""","""	appliedMutations, updateID, registeredCallbacks := s.apply(mutations)
+	if appliedMutations.IsEmpty() {
+		return appliedMutations
+	}
+
+	for _, registeredCallback := range registeredCallbacks {
+		if !registeredCallback.LockExecution(updateID) {
+			return appliedMutations
+		}
+		registeredCallback.Invoke(appliedMutations)
+		registeredCallback.UnlockExecution()
+	}
+
+	return appliedMutations
+}""",'notify/loop-visits-every-subscriber')
+M('C06','typedvalue-delete-marks-absent-before-clearing-on-error-path','kvstore/typedvalue.go',"""	t.valueCached = nil
+	t.hasCached = &falsePtr
+
+	return nil
+}""","""	t.hasCached = &falsePtr
+
+	return nil
+}""",'cache/absent-implies-no-cached-value')
